@@ -1708,6 +1708,25 @@ _vbi_cache_put_page		(vbi_cache *		ca,
 
 	cache_network_add_page (cn, new_cp);
 
+	if (0 == subno_mask) {
+		struct node *hash_list;
+		cache_page *cp2, *cp3;
+
+		/* We keep one version of this page. Above we replaced one
+		   version stored earlier; when the page used to have
+		   subpages (say it alternates between subcode 0000 and
+		   0001) there can be more, which would never be replaced
+		   and pile up. */
+		hash_list = ca->hash + hash (new_cp->pgno);
+
+		FOR_ALL_NODES (cp2, cp3, hash_list, hash_node) {
+			if (cp2 != new_cp
+			    && cp2->pgno == new_cp->pgno
+			    && cp2->network == cn)
+				delete_page (ca, cp2);
+		}
+	}
+
 	if (CACHE_DEBUG) {
 		fputc ('\n', stderr);
 	}
